@@ -3,15 +3,27 @@
 use xvcommon::{Args, Report};
 
 mod e_cache;
+mod e_crash;
 mod e_recon;
 mod e_session;
 mod e_sflight;
 mod monclient;
 mod recipes;
 
+/// re-export for e_crash
+pub fn e_cache_walk(root: &std::path::Path) -> Vec<(std::path::PathBuf, u64)> {
+    e_cache::walk_cache_files(root)
+}
+
 fn main() {
     xvcommon::quiet_panics();
     let args = Args::parse();
+    match args.pos(0).unwrap_or("") {
+        "crash_prep" => return e_crash::prep(&args),
+        "crash_victim" => return e_crash::victim(&args),
+        "crash_check" => return e_crash::check(&args),
+        _ => {},
+    }
     let mut rep = Report::new();
     let engine = args.pos(0).unwrap_or("").to_string();
     match engine.as_str() {
